@@ -466,6 +466,24 @@ func TestVerifC19(t *testing.T) {
 		"cryptoutil.KeySliceToArray":   func(a, b []byte) error { _, err := cryptoutil.KeySliceToArray(a); return err },
 		"cryptoutil.DeriveKey":         func(a, b []byte) error { _, _, err := cryptoutil.DeriveKey(a, b); return err },
 		"cryptoutil.GenerateNonceSize": func(a, b []byte) error { _, err := cryptoutil.GenerateNonceSize(len(a)); return err },
+		"Group.GetSigningPrivKey": func(a, b []byte) error {
+			_, err := (&protocoltypes.Group{Secret: a}).GetSigningPrivKey()
+			return err
+		},
+		"push nonce": func(a, b []byte) error {
+			// a push payload of a real message of this node whose nonce is replaced by the input
+			if len(directed["OutOfStoreReceive"]) == 0 {
+				return nil
+			}
+			env := &protocoltypes.OutOfStoreMessageEnvelope{}
+			if err := proto.Unmarshal(directed["OutOfStoreReceive"][0].(*protocoltypes.OutOfStoreReceive_Request).Payload, env); err != nil {
+				return err
+			}
+			env.Nonce = a
+			raw, _ := proto.Marshal(env)
+			_, _, _, _, err := svc.secretStore.OpenOutOfStoreMessage(ctx, raw)
+			return err
+		},
 		"Group.IsValid": func(a, b []byte) error {
 			g := &protocoltypes.Group{}
 			_ = proto.Unmarshal(a, g)
